@@ -85,9 +85,20 @@ func add(
 	}
 }
 
-// targetIdle tells if the target has nothing queued and nothing running.
+// targetIdle tells if the target has nothing queued and nothing running. Only
+// a local machine can tell for sure (QueueLen and Transition alone have a gap
+// between taking a mutation off the queue and starting its transition).
 func targetIdle(target am.Api) bool {
-	return target.QueueLen() == 0 && target.Transition() == nil
+	mach, ok := target.(*am.Machine)
+	if !ok || mach.QueueLen() > 0 {
+		return false
+	}
+	select {
+	case <-mach.WhenQueueEnds():
+		return mach.QueueLen() == 0
+	default:
+		return false
+	}
 }
 
 // Remove adds a pipe for a Remove mutation between source and target
